@@ -273,12 +273,25 @@ fn handle_bp(req: &Json) -> Json {
         Ok(again) => again.persist(&path2).is_ok() && std::fs::read(&path2).map(|b| b == bytes1).unwrap_or(false),
         Err(_) => false,
     };
+    // The file already exists with other content of the SAME length (what an edit such as `/v1` -> `/v2` leaves
+    // behind): persisting must replace it. Tampered at the start, in the middle and at the very end.
+    let mut overwrites_stale = true;
+    for pos in [0usize, bytes1.len() / 2, bytes1.len().saturating_sub(1)] {
+        if bytes1.is_empty() {
+            break;
+        }
+        let mut stale = bytes1.clone();
+        stale[pos] = if stale[pos] == b'x' { b'y' } else { b'x' };
+        std::fs::write(&path, &stale).unwrap();
+        let ok = bp.persist(&path).is_ok() && std::fs::read(&path).map(|b| b == bytes1).unwrap_or(false);
+        overwrites_stale &= ok;
+    }
     let _ = std::fs::remove_file(&path);
     let _ = std::fs::remove_file(&path2);
     let mut v = serde_json::to_value(&schema).unwrap();
     let mut seen = Vec::new();
     renumber(&mut v, &mut seen);
-    json!({"r": "ok", "schema": v, "stable": stable})
+    json!({"r": "ok", "schema": v, "stable": stable, "overwrites_stale": overwrites_stale})
 }
 
 fn handle(req: &Json) -> Json {
